@@ -20,3 +20,8 @@ class Validation:
                     "Field {}: $ after ".format(fn)+
                     "non-last position {}\n".format(str(pos))+
                     "Segment: {}".format(str(seg)))
+
+  def _validate_record_type_specific_info(self):
+    "Checks that begin <= end and that $ is consistently used in each interval"
+    for n in ["1","2"]:
+      self._substring_type(self.get("beg"+n), self.get("end"+n))
